@@ -27,7 +27,7 @@ from vf.ref import poly
 from vf.ref import units as RU
 
 ID = 'C09'
-N = {'quick': 9000, 'thorough': 400000}
+N = {'quick': 20000, 'thorough': 500000}
 NT_RULE = ('three case kinds drawn per case index after a directed list: (clamp) C08 reactions of empirical species as '
            'ChemkinReaction / SurfaceReaction with 0-2 TS species, reaction enthalpy and TS offset either free or '
            'steered to -2..+2 eV / -1..+3 eV around the reactants; (bep) reactions of all three classes whose TS is a '
